@@ -185,6 +185,7 @@ impl<'a> Checker<'a> {
         let tt = &self.info.types;
         let xs = tt.under(x.ty).clone();
         match (&xs, &t_under) {
+            (Ty::Str, Ty::Slice(el)) if matches!(tt.under(*el), Ty::Int(k) if k.signed() && k.bits() == 32) => {}
             (Ty::Str, Ty::Slice(_)) | (Ty::Slice(_), Ty::Str) => self.run_unsup(e.line, "string <-> slice conversion"),
             (Ty::Slice(_), Ty::Array(..)) | (Ty::Slice(_), Ty::Pointer(_)) => self.run_unsup(e.line, "slice to array conversion"),
             _ => {}
